@@ -30,7 +30,7 @@ CASE_TYPE = "c03_case"
 VERDICT = "c03_verdict"
 EXPLAIN = "c03_explain"
 CASES_PER_FILE = 60
-CASE_TIMEOUT = 60
+CASE_TIMEOUT = 300          # a hang of the implementation is detected per schedule (WAIT_S); this only guards the whole case under heavy machine load
 TIERS = {"quick": {"n": 330, "search_n": 120}, "thorough": {"n": 4000, "search_n": 400}}
 RULE = ("a case = LRI/LRU with max_size 1-4 (on_miss in 30%), 0..max_size+1 initial items, 2-3 real threads x 1-3 "
         "public operations over max_size+2 keys, run under several deterministic schedules that pre-empt before chosen "
